@@ -95,7 +95,14 @@ func (g *gstate) spec(owner string, admissible bool) *Spec {
 		}
 	}
 	if r.Intn(10) < 6 {
-		sp.Cert = 1 + r.Intn(nCerts)
+		// few distinct pairs, so that consecutive versions of a cluster often differ in ONE half only: ids i and i+4
+		// share the key (renewal); `half` delivers cert and key in different updates
+		sp.Cert = rig.Pick(r, []int{1, 5, 1, 5, 2, 6, 3, 7, 4, 8})
+		if x := r.Intn(12); x == 0 {
+			sp.Half = "cert"
+		} else if x == 1 {
+			sp.Half = "key"
+		}
 	}
 	if r.Intn(10) < 5 {
 		sp.CA = 1 + r.Intn(nCAs)
